@@ -186,6 +186,17 @@ pub open spec fn ratios_ok(txs: Seq<GbpTransaction>) -> bool {
     forall|i: int| 0 <= i < txs.len() ==> (((#[trigger] txs[i]).operation is Split ==> txs[i].operation->Split_ratio.v() > 0real)
         && (txs[i].operation is Unsplit ==> txs[i].operation->Unsplit_ratio.v() >= 0real))
 }
+/// C10 / C01.split_rescale: the factor that converts a share count at the sale into the units current at index `hi`:
+/// SPLIT and UNSPLIT lines of the SAME security dated inside the 30-day window after the sale, between the two lines, compose in order
+pub open spec fn split_factor(txs: Seq<GbpTransaction>, sell_idx: int, hi: int) -> real
+    decreases hi
+{
+    if hi <= sell_idx + 1 || hi > txs.len() || sell_idx < 0 { 1real } else {
+        let c = split_factor(txs, sell_idx, hi - 1);
+        let tx = txs[hi - 1];
+        if tx.ticker@ == txs[sell_idx].ticker@ && in_bnb_window(txs[sell_idx].date.d(), tx.date.d()) { ratio_effect(tx, c) } else { c }
+    }
+}
 pub open spec fn leg_acq_d(m: MatchResult) -> int { m.match_detail.acquisition_date->Some_0.d() }
 /// C01.window + C04: a 30-day leg of `sell`
 pub open spec fn bnb_leg_ok(m: MatchResult, sell: GbpTransaction) -> bool {
